@@ -146,10 +146,48 @@ class append_then:
             yield {"op": op}
         for args in ("two-numbers", "one-number", "two-lists", "list-and-number", "stream-and-list", "three-numbers", "nothing-then-numbers"):
             yield {"op": "args", "args": args}
+        # a StreamTeeHub as the only / one of the arguments: the append takes ONE of its uses
+        for uses in (2, 3):
+            for order in ("appended-first", "uses-first", "interleaved"):
+                # (with further arguments the chain is lazy and takes the use only when it reaches the hub: not modelled)
+                yield {"op": "hub", "uses": uses, "order": order, "extra": False}
 
     @staticmethod
     def check(inp):
         from audiolazy import Stream
+        if inp["op"] == "hub":
+            from audiolazy import thub
+            data = [10, 20, 30, 40]
+            h = thub(iter(data), inp["uses"])
+            s = Stream([1, 2])
+            r = outcome(lambda: s.append(h, [5]) if inp["extra"] else s.append(h))
+            if r[0] != "ok":
+                return "append(thub) raised %s" % r[1]
+            others = [outcome(lambda: Stream(h)) for _ in range(inp["uses"] - 1)]
+            if any(o[0] != "ok" for o in others):
+                return "a %d-use thub appended once should still hand out %d uses: %r" % (inp["uses"], inp["uses"] - 1, others)
+            over = outcome(lambda: Stream(h))
+            if over != ("raise", "IndexError"):
+                return "a %d-use thub appended once and used %d more times should raise IndexError on the next use, got %r" % (inp["uses"], inp["uses"] - 1, over)
+            outs = [s] + [o[1] for o in others]
+            want = [[1, 2] + data + ([5] if inp["extra"] else [])] + [list(data) for _ in others]
+            got = [[] for _ in outs]
+            if inp["order"] == "interleaved":
+                its = [iter(o) for o in outs]
+                live = list(range(len(outs)))
+                while live:
+                    for i in list(live):
+                        x = outcome(lambda: next(its[i]))
+                        if x[0] == "ok":
+                            got[i].append(x[1])
+                        else:
+                            live.remove(i)
+            else:
+                for i in (range(len(outs)) if inp["order"] == "appended-first" else reversed(range(len(outs)))):
+                    got[i] = list(outs[i])
+            if got != want:
+                return "Stream([1, 2]).append(thub of %r, %d uses) consumed %s: the streams yield %r, list model says %r" % (data, inp["uses"], inp["order"], got, want)
+            return None
         if inp["op"] == "args":
             # append(*other) is Stream(self, *other): iterables are chained, non-iterables form an endlessly repeated tail
             mk = {"two-numbers": (lambda: (1, -2), [1, -2] * 6), "one-number": (lambda: (5,), [5] * 12), "three-numbers": (lambda: (1, 2, 3), [1, 2, 3] * 4),
